@@ -104,6 +104,7 @@ ctx = new_ctx({"a": "A{{{1|}}}", "h": "==H==\n{{{1|}}}"}, noisy=True)
 def run(text, kw, tag):
     global evaluations
     evaluations += 1
+    current_doc["text"] = text
     ctx.start_page("Tt")
     try:
         with quiet_stdout():
@@ -134,6 +135,43 @@ def run(text, kw, tag):
     distinct.add(text)
 
 
+# ---- run-time reading of the stack contract on the functions whose contract the static tier only ASSUMES
+# (contracts/c01_stack.py: ASSUMED, ASSUMED_OTHER) and of _parser_pop's precondition: validation of those assumptions
+from bounded.harness import Monitor, find_ctx  # noqa: E402
+ASSUMED_FNS = ["subtitle_end_fn", "url_fn", "table_caption_fn", "table_hdr_cell_fn", "table_row_fn", "table_cell_fn",
+               "table_end_fn", "list_fn", "pop_until_nth_list"]
+monitored = {"calls": 0}
+current_doc = {"text": None}
+
+
+def stack_ok(c):
+    st = c.parser_stack
+    return len(st) >= 1 and st[0].kind == NodeKind.ROOT and all(n.kind != NodeKind.ROOT for n in st[1:])
+
+
+def _on_enter(code, frame):
+    c = find_ctx(frame)
+    if c is None:
+        return
+    monitored["calls"] += 1
+    if code.co_name == "_parser_pop":
+        if len(c.parser_stack) < 2:
+            fail("parser:_parser_pop#pre#two-nodes-on-the-stack", f"called with {len(c.parser_stack)} node(s) on the stack",
+                 {"text": (current_doc["text"] or "")[:200]}, "stack-floor")
+    elif not stack_ok(c):
+        fail(f"parser:{code.co_name}#pre#stack_ok", "stack discipline broken on entry", {"text": (current_doc["text"] or "")[:200]},
+             "stack-floor")
+
+
+def _on_exit(code, frame, retval):
+    c = find_ctx(frame)
+    if c is not None and not stack_ok(c):
+        fail(f"parser:{code.co_name}#post#stack_ok", "stack discipline broken on return",
+             {"text": (current_doc["text"] or "")[:200]}, "stack-floor")
+
+
+mon = Monitor([("parser.py", n) for n in ASSUMED_FNS + ["_parser_pop"]], _on_enter, _on_exit, lambda *a: None)
+mon.start()
 OPTS = [{}, {"pre_expand": True}, {"expand_all": True}]
 maxlen = 2 if tier == "quick" else 3
 for n in range(1, maxlen + 1):
@@ -191,8 +229,12 @@ for p in pages[: (150 if tier == "quick" else 2000)]:
             q = p[:j] + p[i:j] + p[j:]
         run(q, rng.choice(OPTS), "mutated-test-page")
 samples.append({"text": "".join(rng.choice(TOK) for _ in range(8))})
+mon.stop()
 emit({"evaluations": evaluations, "distinct_nontrivial": len(distinct),
       "rule": "distinct input texts (token soups, nesting probes, mutated pages from tests/test_parser.py)",
+      "monitored_calls": monitored["calls"],
       "failures": list(failures.values()), "samples": samples,
       "bound": f"all soups of <= {maxlen} tokens over {len(TOK)} tokens, random soups of 3..20 tokens, nesting depth 100 probes, "
-               f"{min(len(pages), 150 if tier == 'quick' else 2000)} test pages with single mutations; options {{}}, pre_expand, expand_all"})
+               f"{min(len(pages), 150 if tier == 'quick' else 2000)} test pages with single mutations; options {{}}, pre_expand, expand_all; "
+               f"the stack contract of the {len(ASSUMED_FNS)} functions the static tier only assumes, and _parser_pop's "
+               f"precondition, read at run time on {monitored['calls']} calls"})
